@@ -233,7 +233,9 @@ pub fn run(ctx: &Ctx) {
                 unpatched.push(t.name.clone());
             }
             if img(t.addr) != w.images[i] || (t.call)() != t.orig {
-                out::outcome(warm_idx, "warmup/each-target-once", Verdict::Violated, "warmup:single-install-not-restored", &J::new().s("target", &t.name));
+                // restoration is C02's property: the other monitors cannot work on a corrupted pool and say so
+                let v = if mons.c02 { Verdict::Violated } else { Verdict::Inconclusive };
+                out::outcome(warm_idx, "warmup/each-target-once", v, "warmup:single-install-not-restored", &J::new().s("target", &t.name));
                 std::process::exit(75);
             }
         }
@@ -274,7 +276,7 @@ pub fn run(ctx: &Ctx) {
         }
         decided += 1;
         out::outcome(idx, &class, verdict, &sig, &detail);
-        if verdict == Verdict::Violated && !sig.starts_with("c17") {
+        if (verdict == Verdict::Violated && !sig.starts_with("c17")) || verdict == Verdict::Inconclusive {
             // state may be corrupt after a restoration failure: leave, the parent restarts after this case
             out::summary(&summary_json(&w, decided));
             std::process::exit(75);
@@ -465,7 +467,7 @@ fn lifetime(w: &mut World, mons: &Mons, p: &Plan, rng: &mut Rng) -> (Verdict, St
                 }
                 let got = (w.pool.targets[ti].call)();
                 w.calls_checked += 1;
-                if got != want && viol.is_none() {
+                if got != want && viol.is_none() && mons.c02 {
                     *viol = Some(("c02:most-recent-install-not-in-effect".into(), J::new().s("target", &w.pool.targets[ti].name).n("got", got).n("want", want).n("stack_depth", model[&ti].len())));
                 }
             }
@@ -474,7 +476,7 @@ fn lifetime(w: &mut World, mons: &Mons, p: &Plan, rng: &mut Rng) -> (Verdict, St
                 if !model.contains_key(&ti) {
                     let got = (w.pool.targets[ti].call)();
                     w.calls_checked += 1;
-                    if got != w.pool.targets[ti].orig && viol.is_none() {
+                    if got != w.pool.targets[ti].orig && viol.is_none() && mons.c03 {
                         *viol = Some(("c03:unnamed-function-changed-behaviour".into(), J::new().s("target", &w.pool.targets[ti].name).n("got", got)));
                     }
                 }
@@ -484,7 +486,7 @@ fn lifetime(w: &mut World, mons: &Mons, p: &Plan, rng: &mut Rng) -> (Verdict, St
                     let (a, id) = *rng.pick(&w.pool.neighbours);
                     let got = unsafe { call0(a) };
                     w.neighbours_called += 1;
-                    if got as u32 != id && viol.is_none() {
+                    if got as u32 != id && viol.is_none() && mons.c03 {
                         *viol = Some(("c03:neighbour-function-changed-behaviour".into(), J::new().x("addr", a).n("got", got)));
                     }
                 }
@@ -586,9 +588,14 @@ fn lifetime(w: &mut World, mons: &Mons, p: &Plan, rng: &mut Rng) -> (Verdict, St
         w.snapshots += 1;
         let d = maps::diff(w.base_snap.as_ref().unwrap(), &snap);
         w.bytes_compared += d.compared as u64;
-        if let Some(&(a, o, n)) = d.changed.first() {
-            w.diff_other += d.changed.len() as u64;
+        // bytes of a named function's own entry slot that did not come back are C02's business, not C03's
+        let foreign: Vec<&(usize, u8, u8)> = d.changed.iter().filter(|(a, _, _)| !w.pool.targets.iter().any(|t| *a >= t.addr && *a < t.addr + 16)).collect();
+        if let Some(&&(a, o, n)) = foreign.first() {
+            w.diff_other += foreign.len() as u64;
             return (Verdict::Violated, "c03:byte-differs-after-scope-exit".into(), detail.x("addr", a).n("old", o).n("new", n).s("mapping", &snap.name_of(a)));
+        }
+        if !d.changed.is_empty() {
+            return (Verdict::Inconclusive, "entry-slot-not-restored:left-to-C02".into(), detail);
         }
         if !d.appeared.is_empty() || !d.vanished.is_empty() {
             return (Verdict::Violated, "c03:executable-mappings-differ-after-scope-exit".into(), detail.s("appeared", &format!("{:x?}", d.appeared)).s("vanished", &format!("{:x?}", d.vanished)));
